@@ -8,6 +8,7 @@ import (
 
 	"github.com/gagliardetto/solana-go"
 	"github.com/ipfs/go-cid"
+	"github.com/rpcpool/yellowstone-faithful/blocktimeindex"
 	cidlink "github.com/ipld/go-ipld-prime/linking/cid"
 	"github.com/rpcpool/yellowstone-faithful/compactindexsized"
 	"github.com/rpcpool/yellowstone-faithful/ipld/ipldbindcode"
@@ -92,8 +93,7 @@ func verifC03NewEpoch(num uint64, nBlocks, nTxs int) *Epoch {
 	}
 	for i := 0; i < nTxs; i++ {
 		o := &verifC03Obj{c: verifC03Cid(byte(0x10*(num+1)) + 8 + byte(i)), kind: verifC03KindTx}
-		o.slot = verifU64("txSlot")
-		verifAssume(o.slot >= lo && o.slot <= hi)
+		o.slot = lo + 3 + uint64(i) // concrete: only used to look up the block time
 		o.sig = verifC03Sig("storedSig")
 		for _, p := range st.objs {
 			if p.kind == verifC03KindTx {
@@ -103,7 +103,24 @@ func verifC03NewEpoch(num uint64, nBlocks, nTxs int) *Epoch {
 		st.objs = append(st.objs, o)
 	}
 	verifC03Stores[e] = st
+	e.sigExists = &verifC03SigExists{st: st}
+	e.blocktimeindex = blocktimeindex.NewIndexer(lo, lo+15, 16)
+	for i := uint64(0); i < 16; i++ {
+		e.blocktimeindex.Set(lo+i, int64(1700000000+i))
+	}
 	return e
+}
+
+// model of the sig-exists pre-filter (bucketteer): no false negatives, false positives allowed.
+type verifC03SigExists struct{ st *verifC03Store }
+
+func (b *verifC03SigExists) Has(sig [64]byte) (bool, error) {
+	for _, o := range b.st.objs {
+		if o.kind == verifC03KindTx && o.sig == solana.Signature(sig) {
+			return true, nil
+		}
+	}
+	return verifBool("sigExistsFalsePositive"), nil
 }
 
 // pick: answer of a keyless hash index for a key; same(i) tells whether stored entry i has this key.
